@@ -347,59 +347,66 @@ func synthSweepC03(r *ev.Run, shardI, shardN int) scopeReport {
 	n := 0
 	for _, tw := range []uint{1, 4, 256} {
 		for _, corner := range []tms20.CornerOfOrigin{tms20.BottomLeft, tms20.TopLeft} {
-			for _, o := range [][2]float64{{0, 0}, {-96, 32}} {
+			for _, o := range [][2]float64{{0, 0}, {-96, 32}, {-97, 32.375}} { // the last: ordinates that differ by no whole number of pixels of any id
 				const deepest = 3
 				px := 0.25 // pixel of id 3
-				tmsS := gridSynth(deepest, px, o[0], o[1], tw, corner)
-				idLists := subsetsOf([]int{0, 1, 2, 3})
-				for _, l := range subsetsOf([]int{0, 1, 2, 3}) { // every subset also written in descending order
-					if len(l) > 1 {
-						d := make([]int, len(l))
-						for i, v := range l {
-							d[len(l)-1-i] = v
+				for _, yx := range []bool{false, true} {
+					tmsS := gridSynth(deepest, px, o[0], o[1], tw, corner)
+					axes := "xy"
+					if yx {
+						tmsS = grid.SynthYX(deepest, px, o[0], o[1], tw, corner)
+						axes = "yx"
+					}
+					idLists := subsetsOf([]int{0, 1, 2, 3})
+					for _, l := range subsetsOf([]int{0, 1, 2, 3}) { // every subset also written in descending order
+						if len(l) > 1 {
+							d := make([]int, len(l))
+							for i, v := range l {
+								d[len(l)-1-i] = v
+							}
+							idLists = append(idLists, d)
 						}
-						idLists = append(idLists, d)
 					}
-				}
-				idLists = append(idLists, []int{1, 3, 0}, []int{2, 0, 3, 1}, []int{3, 3, 1})
-				for _, ids := range idLists {
-					n++
-					if n%shardN != shardI {
-						continue
-					}
-					rep.States++
-					for _, z := range ids {
-						pz := px * float64(uint(1)<<uint(deepest-z))
-						size := int64(16*tw) << uint(z)
-						for _, at := range []int64{0, size/2 - 1, size - 3} {
-							for pi, shape := range probeShapes {
-								poly := geom.Polygon{make([][2]float64, len(shape))}
-								for i, v := range shape {
-									poly[0][i] = [2]float64{o[0] + (float64(at)+v[0]*0.999)*pz, o[1] + (float64(at)+v[1]*0.999)*pz}
-								}
-								for _, cfg := range keepCfgs {
-									var res map[int][]geom.Polygon
-									var pan any
-									func() {
-										defer func() { pan = recover() }()
-										res = snap.SnapPolygon(poly, tmsS, ids, cfg)
-									}()
-									rep.Calls++
-									rep.Transitions++
-									if pan != nil {
-										rep.Extra["panicked(C06)"]++
-										continue
+					idLists = append(idLists, []int{1, 3, 0}, []int{2, 0, 3, 1}, []int{3, 3, 1})
+					for _, ids := range idLists {
+						n++
+						if n%shardN != shardI {
+							continue
+						}
+						rep.States++
+						for _, z := range ids {
+							pz := px * float64(uint(1)<<uint(deepest-z))
+							size := int64(16*tw) << uint(z)
+							for _, at := range []int64{0, size/2 - 1, size - 3} {
+								for pi, shape := range probeShapes {
+									poly := geom.Polygon{make([][2]float64, len(shape))}
+									for i, v := range shape {
+										poly[0][i] = [2]float64{o[0] + (float64(at)+v[0]*0.999)*pz, o[1] + (float64(at)+v[1]*0.999)*pz}
 									}
-									rep.Nontrivial++
-									for _, zz := range ids {
-										pzz := px * float64(uint(1)<<uint(deepest-zz))
-										for _, pl := range res[zz] {
-											for _, ring := range pl {
-												for _, v := range ring {
-													fx, fy := (v[0]-o[0])/pzz-0.5, (v[1]-o[1])/pzz-0.5
-													if fx != math.Floor(fx) || fy != math.Floor(fy) {
-														r.Violation(fmt.Sprintf("off-centre:synthetic:tw%d", tw), fmt.Sprintf("synthetic grid tile width %d corner %s origin %v ids %v: coordinate %v returned for id %d is not a pixel centre (pixel %v)", tw, corner, o, ids, v, zz, pzz),
-															sweepCase{Set: fmt.Sprintf("synthetic tw=%d corner=%s origin=%v", tw, corner, o), ID: zz, Deepest: ids[len(ids)-1], Probe: pi, Cfg: cfg, Polygon: poly, Got: fmt.Sprint(res[zz])})
+									for _, cfg := range keepCfgs {
+										var res map[int][]geom.Polygon
+										var pan any
+										func() {
+											defer func() { pan = recover() }()
+											res = snap.SnapPolygon(poly, tmsS, ids, cfg)
+										}()
+										rep.Calls++
+										rep.Transitions++
+										if pan != nil {
+											rep.Extra["panicked(C06)"]++
+											continue
+										}
+										rep.Nontrivial++
+										for _, zz := range ids {
+											pzz := px * float64(uint(1)<<uint(deepest-zz))
+											for _, pl := range res[zz] {
+												for _, ring := range pl {
+													for _, v := range ring {
+														fx, fy := (v[0]-o[0])/pzz-0.5, (v[1]-o[1])/pzz-0.5
+														if fx != math.Floor(fx) || fy != math.Floor(fy) {
+															r.Violation(fmt.Sprintf("off-centre:synthetic:tw%d:%s", tw, axes), fmt.Sprintf("synthetic grid tile width %d corner %s origin %v axis order %s ids %v: coordinate %v returned for id %d is not a pixel centre (pixel %v)", tw, corner, o, axes, ids, v, zz, pzz),
+																sweepCase{Set: fmt.Sprintf("synthetic tw=%d corner=%s origin=%v axes=%s", tw, corner, o, axes), ID: zz, Deepest: ids[len(ids)-1], Probe: pi, Cfg: cfg, Polygon: poly, Got: fmt.Sprint(res[zz])})
+														}
 													}
 												}
 											}
@@ -413,7 +420,7 @@ func synthSweepC03(r *ev.Run, shardI, shardN int) scopeReport {
 			}
 		}
 	}
-	rep.Bound = "tile width {1,4,256} x corner of origin {bottomLeft, topLeft} x origin {(0,0), (-96,32)} x 15 id subsets of {0,1,2,3} x 3 anchors x 8 probe shapes x keep on/off"
+	rep.Bound = "tile width {1,4,256} x corner of origin {bottomLeft, topLeft} x origin {(0,0), (-96,32), (-97,32.375)} x axis order of the reference system {x/y, y/x: point of origin written y first} x 15 id subsets of {0,1,2,3} x 3 anchors x 8 probe shapes x keep on/off"
 	rep.Inputs = rep.Calls
 	rep.States++
 	rep.WallS = time.Since(t0).Seconds()
